@@ -77,6 +77,22 @@ pub struct Plan {
     pub depth: usize,
 }
 
+/// Canonical multi-keyspace sequences that blind enumeration only reaches at depths the quick tier cannot afford.
+pub fn canonical_programs() -> Vec<Vec<&'static str>> {
+    vec![
+        // cross-keyspace batch, only the first item's keyspace is flushed
+        vec!["batch [x.a=2 y.a=1]", "rotate x", "step WorkerMessage:Flush", "ins x.ab=1"],
+        // ... only the second item's keyspace is flushed
+        vec!["batch [x.a=2 y.a=1]", "rotate y", "step WorkerMessage:Flush", "batch [x.a=1 y.a=2]"],
+        // one keyspace flushed once, the other rotates later (crash between rotation and flush)
+        vec!["ins x.a=1", "rotate x", "step WorkerMessage:Flush", "ins y.a=1", "rotate y", "step WorkerMessage:Flush"],
+        // journal rotation with a lagging keyspace, then the lagging one is flushed (journal eviction)
+        vec!["ins y.a=1", "ins x.a=1", "rotate x", "step+jrot WorkerMessage:Flush", "rotate y", "step WorkerMessage:Flush", "ins x.a=2"],
+        // overwrite after flush, compaction, clear
+        vec!["ins x.a=1", "rotate x", "step WorkerMessage:Flush", "ins x.a=2", "rotate x", "step WorkerMessage:Flush", "step WorkerMessage:Compact(\"x\")", "clear x", "ins x.b=1"],
+    ]
+}
+
 fn plans(tier: &str) -> Vec<Plan> {
     let d = Cfg::default2();
     let q = tier == "quick";
@@ -86,6 +102,7 @@ fn plans(tier: &str) -> Vec<Plan> {
     tx_alpha.reopen = true;
     tx_alpha.max_reopen = 1;
     let mut v = vec![
+        Plan { fixed: Some(canonical_programs()), name: "canonical", cfg: d.clone(), prefix: "", alpha: Alpha::empty(), depth: 0 },
         Plan { fixed: None, name: "main", cfg: d.clone(), prefix: "", alpha: alpha(tier), depth: if q { 3 } else { 4 } },
         Plan { fixed: None, name: "two-sealed-journals", cfg: d.clone(), prefix: "two_sealed_journals", alpha: alpha(tier), depth: if q { 1 } else { 2 } },
         Plan { fixed: None, name: "tx-single-writer", cfg: Cfg { kind: DbKind::SingleWriter, ..d.clone() }, prefix: "", alpha: tx_alpha.clone(), depth: if q { 2 } else { 3 } },
@@ -465,16 +482,28 @@ pub fn crash_explore_mode(o: &mut Outcome, plans: &[Plan], deadline: Instant, q:
     o.findings.extend(f);
 }
 
+pub fn bodies(tier: &str) -> Vec<crate::e3::BodySpec> {
+    use crate::props::c06::{Act, Finals, Kind, VisBody};
+    use std::sync::Arc;
+    let q = tier == "quick";
+    vec![crate::e3::BodySpec {
+        body: Arc::new(VisBody { name: "batch(x.a,x.b) || rotate x || worker flush; crash image after all acknowledgements [focus:commit-path]", kind: Kind::Plain, workers: 1, keyspaces: vec!["x"], initial: vec![("x", "ab", "0")], prerotate: vec![], threads: vec![vec![Act::Batch(vec![("x", "a", "1"), ("x", "b", "1")])], vec![Act::Rotate("x")]], finals: Finals::CrashImage }),
+        bound: if q { 1 } else { 2 },
+        secs: if q { 5.0 } else { 200.0 },
+    }]
+}
+
 pub fn run(tier: &str) -> i32 {
     let t0 = Instant::now();
     let mut o = Outcome::new("C02", tier, "fault_enumeration");
     let q = tier == "quick";
-    let deadline = t0 + Duration::from_secs_f64(if q { 34.0 } else { 1150.0 });
+    let deadline = t0 + Duration::from_secs_f64(if q { 30.0 } else { 1150.0 });
     o.cov("exhaustive", json!(true));
     crash_explore(&mut o, &plans(tier), deadline, q, if q { 2 } else { 12 }, "");
     o.cov("rule", json!("programs = all maximal operation programs of the plan's alphabet up to its depth (enumerated on the real code); each is executed once by a child process under the LD_PRELOAD shim, which copies the database directory before EVERY file-mutating libc call (crash image = what a process killed there leaves); every distinct image taken after the first open returned, plus marker-edge/middle/end splits of every journal write() and the middle split of every other write(), is recovered by the real code: open must succeed, all keyspaces together must equal the model after `acked` or `acked+1` operations, then overwrites/removes/reopen must behave. Each evaluated image is a distinct directory state. (Every byte split of journal appends is enumerated by C03.)"));
+    crate::e3::fold_e3(&mut o, "C02", tier, &bodies(tier), "e3_");
     o.assumptions = vec![
-        "single-threaded driver (crashes under concurrent writers are not enumerated: the prefix oracle needs a deterministic commit order)".into(),
+        "single-threaded driver for the crash-point enumeration (the prefix oracle needs a deterministic commit order); concurrent writers are covered only by the E3 body, which takes ONE crash image (after every thread was acknowledged) under every schedule up to the preemption bound".into(),
         "a process crash does not reorder page-cache writes; power loss is C09's".into(),
         "lsm-tree's atomic rewrite of `current` renames through a raw syscall the shim cannot see; it is atomic and bracketed by interposed calls".into(),
     ];
